@@ -249,11 +249,22 @@ def oracle(case, rec):
         _cmp(rec, net, "internal_closeness", ic, g1,
              clause="internal_closeness" + (
                  "" if np.isfinite(Di).all() else "_unreachable_pairs"))
-    if W is not None and np.isfinite(DW[ix]).all():
-        _cmp(rec, net, "cross_average_path_length", DW[ix].mean(), g1, g2,
-             "la", clause="cross_average_path_length_weighted")
-        _cmp(rec, net, "cross_closeness", N2 / DW[ix].sum(axis=1), g1, g2,
-             "la", clause="cross_closeness_weighted")
+    if W is not None:
+        fw = np.isfinite(DW[ix])
+        if fw.any():
+            # mean over the connected pairs - zero-length paths included
+            _cmp(rec, net, "cross_average_path_length", DW[ix][fw].mean(),
+                 g1, g2, "la", clause="cross_average_path_length_weighted")
+        DWi = DW[i1]
+        fwi = np.isfinite(DWi) & ~np.eye(N1, dtype=bool)
+        if fwi.any():
+            _cmp(rec, net, "internal_average_path_length", DWi[fwi].mean(),
+                 g1, "la", clause="internal_average_path_length_weighted")
+        if (W[A != 0] == 0).any():
+            rec.label("zero_length_link")
+        if fw.all() and (DW[ix].sum(axis=1) > 0).all():
+            _cmp(rec, net, "cross_closeness", N2 / DW[ix].sum(axis=1), g1,
+                 g2, "la", clause="cross_closeness_weighted")
     # betweenness
     _cmp(rec, net, "cross_betweenness",
          R.interregional_betweenness(A, g1, g2), g1, g2)
@@ -410,8 +421,11 @@ def cases(draw, n_min=4, n_max=14):
     directed = draw(st.integers(0, 3)) == 0
     g = draw(G.graphs(n_min, n_max, directed))
     n = g["n"]
+    # link attributes may be zero on existing links (co-located nodes of a
+    # distance attribute): lo=0 in a third of the weighted cases
     return {"g": g, "w": draw(G.node_weights(n)),
-            "W": draw(st.one_of(st.none(), G.link_attr(n, directed))),
+            "W": draw(st.one_of(st.none(), G.link_attr(n, directed),
+                                G.link_attr(n, directed, lo=0, hi=3))),
             "side": draw(st.lists(st.integers(0, 2), min_size=n, max_size=n)),
             "order": draw(st.permutations(list(range(n))))}
 
